@@ -104,6 +104,10 @@ func genIDRule(w *World, r *Result, rel string) int {
 				r.ok("GEN-ID", fi.Name, cons, pos, "the same statement also consults TypeArgs() (directly or through the helper it calls): two instantiations of one generic type get different names", true)
 				return true
 			}
+			if subjectReachesTypeArgs(w, fi, region, subject) {
+				r.ok("GEN-ID", fi.Name, cons, pos, "the same case clause / function passes the same value to a helper that reads its type arguments: two instantiations of one generic type get different names", true)
+				return true
+			}
 			if reachesTypeArgs(w, fi, region, 0) {
 				r.ok("GEN-ID", fi.Name, cons, pos, "the same case clause / function also ranges over TypeArgs(): two instantiations of one generic type get different names", true)
 				return true
@@ -365,4 +369,35 @@ func refusedBefore(w *World, fi *FuncInfo, node ast.Node, depth int) string {
 		return "every call site of " + fi.Name + " is " + first
 	}
 	return ""
+}
+
+// subjectReachesTypeArgs: region contains a call of a module function that reads type arguments (TypeArgs().At,
+// depth bounded) and receives the very expression whose name is being derived (or the *types.Named it is
+// unwrapped to).
+func subjectReachesTypeArgs(w *World, fi *FuncInfo, region ast.Node, subject ast.Expr) bool {
+	info := fi.Pkg.TypesInfo
+	want := es(ast.Unparen(subject))
+	found := false
+	ast.Inspect(region, func(x ast.Node) bool {
+		call, ok := x.(*ast.CallExpr)
+		if !ok || found {
+			return true
+		}
+		fn := calleeOf(info, call)
+		if fn == nil {
+			return true
+		}
+		callee := w.Funcs[fn]
+		if callee == nil || callee == fi || callee.Decl.Body == nil || !reachesTypeArgs(w, callee, callee.Decl.Body, 2) {
+			return true
+		}
+		for _, a := range call.Args {
+			at := es(ast.Unparen(a))
+			if at == want || strings.HasPrefix(at, want+".") || strings.HasPrefix(want, at+".") {
+				found = true
+			}
+		}
+		return true
+	})
+	return found
 }
